@@ -61,8 +61,16 @@ def prepare(tier, seed):
     _SEED = seed
 
 
-def frame(lv, holes=False):
-    key = (tuple(lv), holes)
+def frame(lv, holes=False, cat=False):
+    key = (tuple(lv), holes, cat)
+    if cat and key not in _FR:  # the same data stored as unordered Categoricals whose categories are not in sorted order
+        import pandas as pd
+
+        df = frame(lv, holes).copy()
+        for c in ("f", "f2", "g", "h"):
+            lvls = sorted(set(df[c]))
+            df[c] = pd.Categorical(df[c], categories=lvls[1:][::-1] + lvls[:1])
+        _FR[key] = df
     if key not in _FR:
         d = dict(zip(["f", "f2", "g", "h", "k"], lv))
         df = frames.factorial(d, reps=2, seed=_SEED)
@@ -111,6 +119,9 @@ def units(tier, seed):
             [["f", False, "g:h"], ["x", False, "h:g"]],
         ]
         u.append([{"lv": list(lv), "holes": holes, "terms": p} for p in pairs])
+        if lv == vecs[0]:
+            u.append([dict(c, cat=True) for c in block])
+            u.append([{"lv": list(lv), "holes": holes, "terms": p, "cat": True} for p in pairs])
     # many cells: 6 x 7 = 42 columns in the indicator of g:h
     big = [3, 2, 6, 7, 2]
     u.append([{"lv": big, "holes": False, "terms": [[e, z, g]]} for e in ("1", "x", "f", "scale(x)") for z in (False, True) if not (e == "1" and z) for g in ("g:h", "h:g", "g/h")])
@@ -205,11 +216,14 @@ def expected_terms(case):
     return out
 
 
-def block_of(name, Z, t, ef, fac, cur, train, what):
-    """Block clause for one term on frame `cur` (levels and learnt parameters from `train`); list of problems."""
+def block_of(name, Z, t, ef, fac, cur, train, what, unseen=None):
+    """Block clause for one term on frame `cur` (levels and learnt parameters from `train`); list of problems.
+    `unseen`: rows of `cur` that belong to a group the design has not seen (they form one more slot at the end)."""
     out = []
     Z = np.asarray(Z, dtype=float)
     J, cnames = cells(fac, cur, train)
+    if unseen is not None and unseen.any():
+        J = np.column_stack([J, unseen.astype(float)])
     nc = J.shape[1]
     if Z.ndim != 2 or Z.shape[0] != len(cur) or Z.shape[1] % nc != 0:
         return [("block", "width", f"{name} {what}: shape {Z.shape} for {len(cur)} rows and {nc} groups")]
@@ -253,6 +267,32 @@ def later_blocks(case, dm, exp, df, acc):
                 out += block_of(name, r[name], grp.terms[name], ef, fac, cur, df, f"on new frame {step + 1} of 3 (rows {idx[0]}..{idx[-1]})")
         if out:
             return out
+    # new frames in which one grouping column holds a level the design has not seen (mode 'silent'): that factor's terms get
+    # one more slot, the blocks of every other term are where .slices / matrix[name] say they are
+    import formulae
+
+    old = formulae.config["EVAL_UNSEEN_CATEGORIES"]
+    try:
+        formulae.config["EVAL_UNSEEN_CATEGORIES"] = "silent"
+        for col in ("g", "h"):
+            cur = df.iloc[list(range(h))].reset_index(drop=True).copy()
+            cur[col] = cur[col].astype(object)
+            cur.loc[[0, h - 1], col] = "zz new"
+            acc.calls += 1
+            try:
+                r = grp.evaluate_new_data(cur)
+            except Exception as e:
+                out.append(("block", "new-group-raises", f"group.evaluate_new_data with an unseen level of {col} (silent mode) raised {type(e).__name__}: {e}"))
+                break
+            for name in grp.terms:
+                if name in exp:
+                    ef, fac = exp[name]
+                    unseen = (cur[col] == "zz new").to_numpy() if col in fac else None
+                    out += block_of(name, r[name], grp.terms[name], ef, fac, cur, df, f"on a new frame with an unseen level of {col}", unseen)
+            if out:
+                return out
+    finally:
+        formulae.config["EVAL_UNSEEN_CATEGORIES"] = old
     other = df.iloc[::-1].reset_index(drop=True).copy()
     other["x"] = other["x"] * 2 + 30
     other["z"] = other["z"] - 4
@@ -272,7 +312,7 @@ def check_case(case, acc):
     from formulae import design_matrices
     from fmc.core import exc_sig
 
-    df = frame(case["lv"], case.get("holes", False))
+    df = frame(case["lv"], case.get("holes", False), case.get("cat", False))
     f = formula_of(case)
     acc.calls += 1
     acc.traces += 1
@@ -348,7 +388,7 @@ def check_case(case, acc):
     # a later, different design with the same term names at other offsets must not disturb this one
     if len(case["terms"]) == 1 and case["terms"][0][0] != "1" and not problems:
         e_, z_, g_ = case["terms"][0]
-        other = {"lv": case["lv"], "holes": case.get("holes", False), "terms": [[e_, not z_, g_]]}
+        other = {"lv": case["lv"], "holes": case.get("holes", False), "cat": case.get("cat", False), "terms": [[e_, not z_, g_]]}
         try:
             acc.calls += 1
             design_matrices(formula_of(other), df)
@@ -371,7 +411,7 @@ def check_case(case, acc):
                 seen.add((clause, sig))
                 acc.violation(clause, sig, case, f"{f!r} lv={case['lv']}: {msg}")
     else:
-        acc.case([f, case["lv"], case.get("holes", False)], "ok", nontrivial=nontriv)
+        acc.case([f, case["lv"], case.get("holes", False), case.get("cat", False)], "ok", nontrivial=nontriv)
 
 
 def classify(case, clause, sig, detail):
